@@ -396,7 +396,8 @@ func SRTStreamID(syntax string, publish bool, path string, cr Creds) string {
 }
 
 func srtDenied(err error) bool {
-	return strings.Contains(err.Error(), "connection rejected") && strings.Contains(err.Error(), "REJ_PEER")
+	// REJ_PEER = 1002, which gosrt prints in base 32
+	return strings.Contains(err.Error(), "connection rejected: REJECT (va)")
 }
 
 // SRTDial connects through a UDP relay whose server-side address is known before the handshake, so that the
@@ -444,8 +445,9 @@ func SRTDial(addr string, streamID string, publish bool, cr Creds) (*Client, srt
 type udpRelay struct {
 	in   *net.UDPConn // the client talks to this one
 	out  *net.UDPConn // connected to the server
-	done chan struct{}
-	once sync.Once
+	done   chan struct{}
+	upDone chan struct{}
+	once   sync.Once
 }
 
 func newUDPRelay(server string, src net.IP) (*udpRelay, error) {
@@ -462,10 +464,11 @@ func newUDPRelay(server string, src net.IP) (*udpRelay, error) {
 		in.Close()
 		return nil, err
 	}
-	r := &udpRelay{in: in, out: out, done: make(chan struct{})}
+	r := &udpRelay{in: in, out: out, done: make(chan struct{}), upDone: make(chan struct{})}
 	var peer *net.UDPAddr
 	var pmu sync.Mutex
 	go func() {
+		defer close(r.upDone)
 		buf := make([]byte, 2048)
 		for {
 			n, from, err := in.ReadFromUDP(buf)
@@ -511,6 +514,9 @@ func (r *udpRelay) clientSide() string { return r.in.LocalAddr().String() }
 func (r *udpRelay) serverSide() string { return r.out.LocalAddr().String() }
 func (r *udpRelay) close() {
 	r.once.Do(func() {
+		// forward what the client has already sent (its shutdown packet), then stop
+		r.in.SetReadDeadline(time.Now().Add(150 * time.Millisecond)) //nolint:errcheck
+		<-r.upDone
 		close(r.done)
 		r.in.Close()
 		r.out.Close()
